@@ -33,7 +33,7 @@ BUILT = {
          "DESIGN.md section 5 C16"),
  "C17": ("exploration",
          "Coincidence-free generated programs (generics with several instantiations, associated types, two versions, recursion): three random permutations with consistent renumbering must leave the module tokens (or the error) unchanged and induce the same de-duplication groups with outputs identical modulo the suffix bijection; three random reachability-closed sub-registries (PortableRegistry::retain) must yield identical items for every retained path, string-equal descriptions and equally valid examples (C12/C14 oracles) for every retained id; Polkadot sub-registries for the description/example clauses.",
-         "Per-path recursive derives are excluded (they legitimately depend on the first instantiation). Docs are switched off for two-version programs (the kept item takes the first entry's docs). Item identity on Polkadot sub-registries is not claimed. A second stratum forces group versions (every definition reachable from a chosen one copied to the same path, one copy mutated); a constructed regression probe runs all 24 arrangements of two mutually recursive two-version paths.",
+         "Per-path recursive derives are excluded (they legitimately depend on the first instantiation). Programs with two same-path definitions that the type graph cannot tell apart although their source differs (decided on the source program) may fail the output-identity clauses with the known finding c17:keep-first-among-same-shape-versions. Item identity on Polkadot sub-registries is not claimed. A second stratum forces group versions (every definition reachable from a chosen one copied to the same path, one copy mutated); a constructed regression probe runs all 24 arrangements of two mutually recursive two-version paths.",
          "proptest-driven generator + metamorphic relations (permutation with renumbering, restriction by reachability)",
          "DESIGN.md section 5 C17"),
  "C18": ("exploration",
